@@ -1,13 +1,14 @@
 import NitroVerif.Lemmas.ParseValueBuild
 import NitroVerif.Lemmas.ParseArgs
 import NitroVerif.Lemmas.ParseDirectives
+import NitroVerif.Lemmas.ParseMoreStrCtx
 /-!
 # C07 — render ∘ parse for the `Value`, `Arguments`, `Directives` sub-languages, with arbitrary trivia
 
 Property theorems only. For EVERY value the lexical grammar can express (`WFV`: nested lists and objects of any depth,
 all scalar kinds — variables, integers, floats, strings of arbitrary characters, booleans, null, enum values) and for
 EVERY placement of trivia between its tokens (`τ`, `Ws`: spaces, tabs, line terminators incl. CR LF, commas, BOM, and
-`# …` comments ending in a line terminator whose text does not begin with `import`), the GENERATED grammar's `Value` rule (generic PEG interpreter, rule bodies read from
+`# …` comments ending in a line terminator whose text is visibly not the beginning of an `#import` statement — `NotImportHead`, Lemmas/ParseComment.lean: it does not begin with `import`, or `import` is followed by a name character, or by blanks and a character that starts neither a name nor `*` nor a comment), the GENERATED grammar's `Value` rule (generic PEG interpreter, rule bodies read from
 `Gen.grammar` by `rfl`) run on the rendering, followed by the builder `build_value`, gives the value back with every
 position equal to the line/column of the corresponding token.
 
@@ -179,5 +180,78 @@ example : WFV (.list [.int "1" {}, .obj [("k", {}, .str "a\"b" {})] {}, .bool tr
       · intro x hx
         simp only [List.mem_cons, List.not_mem_nil, or_false] at hx
         rcases hx with rfl | rfl <;> decide
+
+/-! ### string literals of every form as values and as descriptions (third stage) -/
+
+open NitroVerif.StringParse in
+/-- `render_parse_string_value_general`: ANY legal normal string literal (`SItem`s: plain characters, simple escapes, `\uXXXX`,
+    `\u{X…}`; see `string_decode_general` in `Props/C07.lean`) whose escapes all denote scalar values, wherever it occurs in an
+    input, is parsed by the `Value` rule (the earlier alternatives `Variable`, `IntValue`, `FloatValue` fail on `"`) into one
+    pair on which `build_value` returns the string value with the decoded characters `s` and the position of the opening
+    quote — and by the `Description` rule into one pair on which the description builder returns `s`. -/
+theorem render_parse_string_value_general (it : SItem) (its : List SItem) (hok : AllOk (it :: its)) (s : List Char)
+    (hs : (it :: its).mapM SItem.decode = .ok s) (inp : List Char) (off : Nat) (rest : List Char)
+    (h : inp.drop off = '"' :: (litText (it :: its) ++ '"' :: rest)) (fuel bfuel : Nat)
+    (hf : (litText (it :: its)).length + 70 ≤ fuel) (hb : 1 ≤ bfuel) :
+    (∃ pair, Peg.run gList fuel R.Value inp off .nonAtomic = some (off + ((litText (it :: its)).length + 2), [pair]) ∧
+      buildValue (Ctx.spec inp) bfuel pair = .ok (.str (String.ofList s) (posAt inp off))) ∧
+    (∃ pair, Peg.run gList fuel R.Description inp off .nonAtomic = some (off + ((litText (it :: its)).length + 2), [pair]) ∧
+      buildDescription (Ctx.spec inp) pair = .ok (String.ofList s)) := by
+  have hrun := litValue_runs it its hok off rest (at_ := .nonAtomic)
+  have hsv : stringValueChars (Ctx.spec inp) (litPair (it :: its) off) = .ok (s, posAt inp off) := by
+    rw [stringValueChars_litPair it its hok off rest h, hs]; rfl
+  obtain ⟨bf, rfl⟩ : ∃ bf, bfuel = bf + 1 := ⟨bfuel - 1, by omega⟩
+  constructor
+  · obtain ⟨tr', h'⟩ := value_of_string hrun {}
+    have := h' fuel (by omega)
+    refine ⟨.mk R.Value off (off + ((litText (it :: its)).length + 2)) [litPair (it :: its) off], ?_,
+      buildValue_string (litPair_rule _ _) hsv bf _ _⟩
+    unfold Peg.run
+    rw [h, this]
+  · obtain ⟨tr', h'⟩ := description_of_string hrun {}
+    have := h' fuel (by omega)
+    refine ⟨.mk R.Description off (off + ((litText (it :: its)).length + 2)) [litPair (it :: its) off], ?_,
+      buildDescription_string (litPair_rule _ _) hsv _ _⟩
+    unfold Peg.run
+    rw [h, this]
+
+open NitroVerif.StringParse in
+/-- `render_parse_block_string_value_raw`: a block string `"""body"""` (every body the grammar reads to its end, see
+    `parse_render_block_string_raw`) wherever it occurs in an input is parsed by the `Value` rule and by the `Description` rule
+    into one pair each, on which `build_value` returns the string value `body` — the RAW text (open finding t) — with the
+    position of the opening delimiter, and the description builder returns `body`. -/
+theorem render_parse_block_string_value_raw (body : List Char) (h3 : noBareTriple body = true)
+    (hend : endsPlain body = true) (inp : List Char) (off : Nat) (rest : List Char)
+    (h : inp.drop off = ['"', '"', '"'] ++ (body ++ (['"', '"', '"'] ++ rest))) (fuel bfuel : Nat)
+    (hf : body.length + 40 ≤ fuel) (hb : 1 ≤ bfuel) :
+    (∃ pair, Peg.run gList fuel R.Value inp off .nonAtomic = some (off + (body.length + 6), [pair]) ∧
+      buildValue (Ctx.spec inp) bfuel pair = .ok (.str (String.ofList body) (posAt inp off))) ∧
+    (∃ pair, Peg.run gList fuel R.Description inp off .nonAtomic = some (off + (body.length + 6), [pair]) ∧
+      buildDescription (Ctx.spec inp) pair = .ok (String.ofList body)) := by
+  have hrun := blockString_runs (blockBody_of body h3 hend) off rest (at_ := .nonAtomic)
+  have hsv := stringValueChars_blockPair (inp := inp) body off rest h
+  have h' : inp.drop off = '"' :: ('"' :: '"' :: (body ++ (['"', '"', '"'] ++ rest))) := by simpa using h
+  have hrun' : RunsRule gList (body.length + 30) R.StringValue .nonAtomic
+      ⟨off, '"' :: ('"' :: '"' :: (body ++ (['"', '"', '"'] ++ rest)))⟩ ⟨off + (body.length + 6), rest⟩
+      [blockPair body.length off] := by simpa using hrun
+  obtain ⟨bf, rfl⟩ : ∃ bf, bfuel = bf + 1 := ⟨bfuel - 1, by omega⟩
+  constructor
+  · obtain ⟨tr', hh⟩ := value_of_string hrun' {}
+    have := hh fuel (by omega)
+    refine ⟨.mk R.Value off (off + (body.length + 6)) [blockPair body.length off], ?_,
+      buildValue_string (blockPair_rule _ _) hsv bf _ _⟩
+    unfold Peg.run
+    rw [h', this]
+  · obtain ⟨tr', hh⟩ := description_of_string hrun' {}
+    have := hh fuel (by omega)
+    refine ⟨.mk R.Description off (off + (body.length + 6)) [blockPair body.length off], ?_,
+      buildDescription_string (blockPair_rule _ _) hsv _ _⟩
+    unfold Peg.run
+    rw [h', this]
+
+/-- the hypotheses are satisfiable: `"\u00e9t\u{e9}"` and `"""été"""` both denote `été` -/
+example : ([StringParse.SItem.u4 '0' '0' 'e' '9', .plain 't', .ubrace ['e', '9']].mapM StringParse.SItem.decode).toOption =
+      some ['é', 't', 'é'] ∧
+    StringParse.noBareTriple "été".toList = true ∧ StringParse.endsPlain "été".toList = true := by decide
 
 end NitroVerif.C07
